@@ -226,7 +226,7 @@ def bounded_strategy():
 
     return st.fixed_dictionaries({
         'data': c03.data_strategy(800), 'cls': st.sampled_from(['BetaUnivariate', 'UniformUnivariate', 'TruncatedGaussian', 'TruncatedGaussian']),
-        'user': st.booleans(), 'lo_frac': st.floats(0.0, 2.0), 'hi_frac': st.floats(0.0, 2.0), 'seed': S.SEEDS, 'zero_bound': st.booleans(),
+        'user': st.booleans(), 'lo_frac': st.floats(0.0, 2.0), 'hi_frac': st.floats(0.0, 2.0), 'seed': S.SEEDS, 'zero_bound': st.booleans(), 'one_sided': st.sampled_from([None, None, 'min', 'max']),
         'delta': st.floats(-9, 0),
     })
 
@@ -247,7 +247,15 @@ def oracle_bounded(case):
             umin = 0.0
         elif case.get('zero_bound') and np.max(x) < 0:
             umax = 0.0
-        m = M.uni_class(cls)(minimum=umin, maximum=umax, random_state=case['seed'])
+        one = case.get('one_sided')
+        kw = {'minimum': umin, 'maximum': umax}
+        if one == 'min':
+            kw.pop('maximum')
+            umax = float(np.max(x)) + float(np.finfo(np.float32).eps)      # the missing bound comes from the data (documented)
+        elif one == 'max':
+            kw.pop('minimum')
+            umin = float(np.min(x)) - float(np.finfo(np.float32).eps)
+        m = M.uni_class(cls)(random_state=case['seed'], **kw)
     else:
         m = M.uni_class(cls)(random_state=case['seed'])
     kind, err = call(m.fit, x.copy(), allow=(Exception,))
@@ -277,7 +285,7 @@ def oracle_bounded(case):
     require(np.all(q >= lo - tol) and np.all(q <= hi + tol), '%s: percent_point leaves the support [%r,%r]: %r' % (cls, lo, hi, q), tag='ppf-outside')
     s = np.asarray(value(m.sample, 200, what='sample'), dtype=float)
     require(np.all(s >= lo - tol) and np.all(s <= hi + tol), '%s: sample leaves the support [%r,%r]: min %r max %r' % (cls, lo, hi, s.min(), s.max()), tag='sample-outside')
-    return {'nontrivial': True, 'classes': ['cls:' + cls, 'user-bounds' if user else 'fitted-bounds'] + (['zero-user-bound'] if user and 0.0 in (umin, umax) else [])}
+    return {'nontrivial': True, 'classes': ['cls:' + cls, 'user-bounds' if user else 'fitted-bounds'] + (['zero-user-bound'] if user and 0.0 in (umin, umax) else []) + (['one-sided-user-bound'] if user and case.get('one_sided') else [])}
 
 
 # ---- (iv) KDE is the kernel estimate ---------------------------------------------------------------
